@@ -96,10 +96,13 @@ def all_below_monotone(ts: 'Seq[DT]', u: 'DT', v: 'DT'):
     return (not (all_below(ts, u) and subset(u, v))) or all_below(ts, v)
 
 
-@lemma(induction_on='ts', props=['C20'])
+def _ub_hint(ts):
+    all_below_monotone(ts[1:], fold_or(ts[1:]), fold_or(ts))      # instance of a proved lemma
+
+
+@lemma(induction_on='ts', props=['C20'], hint=_ub_hint)
 def union_is_upper_bound(ts: 'Seq[DT]'):
     # "union is the least upper bound": (1) it is above every element
-    all_below_monotone(ts[1:], fold_or(ts[1:]), fold_or(ts))      # hint: instance of a proved lemma
     return all_below(ts, fold_or(ts))
 
 
